@@ -297,6 +297,33 @@ func runHostile(o *opts) {
 		distinct["sp"+sf.name] = true
 		rmrf(p.Base)
 	}
+	// (f) a sub-directory of a committed directory replaced by a link to a directory OUTSIDE the project:
+	// checkout must not follow it
+	for _, cp := range []bool{false, true} {
+		for _, depth := range []int{1, 2} {
+			p, skip := newProj()
+			sub := "lnkdir"
+			if depth == 2 {
+				sub = "mid/lnkdir"
+			}
+			must(os.MkdirAll(filepath.Join(p.Root, "data", sub), 0o755))
+			must(os.WriteFile(filepath.Join(p.Root, "data", sub, "inner.txt"), []byte("inner"), 0o644))
+			must(os.WriteFile(filepath.Join(p.Root, "data", "top.txt"), []byte("top"), 0o644))
+			p.writeStage("s.yaml", &StageRec{Out: []Art{{Path: "data", IsDir: true}}})
+			if res := p.dud("", "stage", "add", "s.yaml"); res.Exit != 0 {
+				must(fmt.Errorf("hostile setup: %s", res.Stderr))
+			}
+			if res := p.dud("", "commit"); res.Exit != 0 {
+				must(fmt.Errorf("hostile commit: %s", res.Stderr))
+			}
+			rmrf(filepath.Join(p.Root, "data", sub))
+			must(os.Symlink(filepath.Join(p.Base, "outer", "neighbour"), filepath.Join(p.Root, "data", sub)))
+			run(p, skip, Cmd{Kind: "checkout", Copy: cp}, want(5, 20, 13), "checkout over a sub-directory replaced by a link to an outside directory", map[string]interface{}{"depth": depth})
+			s.count("link-to-outside-directory")
+			distinct[fmt.Sprintf("lo%v%d", cp, depth)] = true
+			rmrf(p.Base)
+		}
+	}
 	// (e) a relative cache setting that climbs out of the project, used from sub-directories: objects
 	// go to the CONFIGURED cache directory (relative to the project root), nowhere else
 	for _, cwd := range []string{"", "sub", "sub/deep"} {
